@@ -557,7 +557,7 @@ def agg_case(seed):
 
 REC_TEMPLATES = ['tc_linear', 'tc_left', 'tc_nonlinear', 'tc_disj', 'same_gen', 'reach_mutual_cut',
                  'three_cycle_flat', 'min_path', 'min_path_w', 'counter', 'counter_distinct',
-                 'reach_from', 'two_cycle_flat']
+                 'reach_from', 'two_cycle_flat', 'annot_noncut']
 
 
 def rec_case(seed, deep=False):
@@ -659,6 +659,17 @@ def rec_case(seed, deep=False):
     K = 2
     if depth is None:
       depth = 3
+  elif tmpl == 'annot_noncut':
+    # the annotated member (Tm) does not cut the component because Rr also recurses through itself,
+    # although another member (Rr) would: the declared depth still governs the whole component
+    main = 'Rr'
+    rules = [Rule('Rr', [x], distinct=True, body=A('G', x)),
+             Rule('Rr', [y], distinct=True, body=Conj([A('Rr', x), A('E', x, y)])),
+             Rule('Rr', [y], distinct=True, body=Conj([A('Tm', x), A('F', x, y)])),
+             Rule('Tm', [x], distinct=True, body=Conj([A('Rr', x), A('E', x, x) if rnd.random() < 0.5 else A('F', x, y)]))]
+    K = 2
+    if depth is None:
+      depth = rnd.choice([1, 2, 3])
   elif tmpl == 'reach_from':
     main = 'R'
     rules = [Rule('R', [x], distinct=True, body=A('G', x)),
@@ -670,6 +681,8 @@ def rec_case(seed, deep=False):
     target = main
     if tmpl in ('reach_mutual_cut', 'two_cycle_flat', 'three_cycle_flat') and rnd.random() < 0.5:
       target = 'Rb'     # the annotation may sit on any member of the component
+    if tmpl == 'annot_noncut':
+      target = 'Tm'
     ann.append('@Recursive(%s, %d);' % (target, depth))
     depths[target] = depth
   prog = Program(rules, ann, ext=EXT)
